@@ -444,6 +444,7 @@ func c05searchLoops(c *core.Check) {
 	c.Min("include-search-complete", 2)
 	c05typedefSource(c)
 	c05enumIndex(c)
+	c04fieldDefaults(c)
 }
 
 // enclosingBlock returns the statement list of the innermost block that directly contains target.
